@@ -80,40 +80,103 @@ def _attribution(db, chk, m):
 
 
 def _parents(db, chk, m):
-    """the parent passed for case (E,S) is the parent recorded together with last_node"""
+    """the parent passed for case (E,S) is the parent recorded together with last_node.  The traversal variables are found by ROLE (the source of the
+    attributed edge / the parent argument of the attribution); they may be nonlocal names or fields of one closure object."""
     rule = "C10.R1-parent-tracking"
+    outer_q = "CPGraph._construct_graph_from_call_stack"
+    outer = m.func(outer_q)
+    outer_locals = {H.name_id(t) for t, v, s_ in H.assignments(outer, nested=False)} | set(H.param_names(outer))
+
+    def key(e):
+        if isinstance(e, ast.Name):
+            return e.id
+        if isinstance(e, ast.Attribute) and isinstance(e.value, ast.Name):
+            return f"{e.value.id}.{e.attr}"
+        return None
+
+    def blocks(node):
+        for fld in ("body", "orelse"):
+            b = getattr(node, fld, None)
+            if isinstance(b, list) and b and isinstance(b[0], ast.stmt):
+                yield b
+                for s in b:
+                    yield from blocks(s)
+
     for fname in ("enter_func", "exit_func"):
-        f = m.func(f"CPGraph._construct_graph_from_call_stack.{fname}")
-        where = m.loc(f)
+        f0 = m.func(f"{outer_q}.{fname}")
+        where = m.loc(f0)
+        f = H.inline_helpers(m, f0, exclude=("_add_edge_helper", "_attribute_edge"))
+        params = H.param_names(f0)
+        nonlocals = {n_ for x in ast.walk(f) if isinstance(x, ast.Nonlocal) for n_ in x.names}
+        own = set(params) | {H.name_id(t) for t, v, s_ in H.assignments(f) if isinstance(t, ast.Name)} - nonlocals
+
+        def shared(k):
+            """traversal state shared between the visits: a nonlocal name, or a field of an object of the enclosing traversal"""
+            if k is None:
+                return False
+            base = k.split(".")[0]
+            if "." in k:
+                return base not in own and base in outer_locals
+            return k in nonlocals
         calls = [c for c in ast.walk(f) if isinstance(c, ast.Call) and isinstance(c.func, ast.Attribute) and c.func.attr == "_attribute_edge"]
-        ok_args = bool(calls) and all(len(c.args) == 2 and H.name_id(c.args[1]) == "last_ev_parent" and H.name_id(c.args[0]) == "e" for c in calls)
-        chk.ob(rule, f"{fname}: nesting edges are attributed with the parent recorded for the previous node (last_ev_parent)", ok_args, where, found=[ast.unparse(c) for c in calls], accepted="self._attribute_edge(e, last_ev_parent)")
+        if not calls or any(len(c.args) != 2 for c in calls):
+            chk.ob(rule, f"{fname}: attribution calls recognised", None, where, found=[ast.unparse(c) for c in calls])
+            continue
+        pkeys = {key(c.args[1]) for c in calls}
+        pk = next(iter(pkeys)) if len(pkeys) == 1 else None
+        chk.ob(rule, f"{fname}: nesting edges are attributed with the parent recorded for the previous node (shared traversal state, not a value of the current visit)", len(pkeys) == 1 and shared(pk), where,
+               found=[ast.unparse(c) for c in calls], accepted="self._attribute_edge(e, last_ev_parent)")
+        # the attributed edge starts at the recorded last node
+        nkeys = set()
+        for c in calls:
+            en = H.name_id(c.args[0])
+            dv = [v for t, v, s_ in H.assignments(f) if H.name_id(t) == en] if en else []
+            for v in dv:
+                if isinstance(v, ast.Call) and isinstance(v.func, ast.Attribute) and v.func.attr == "_add_edge_helper" and v.args:
+                    nkeys.add(key(v.args[0]))
+                else:
+                    nkeys.add(None)
+            if not dv:
+                nkeys.add(None)
+        nk = next(iter(nkeys)) if len(nkeys) == 1 else None
+        if nk is None or pk is None or not shared(pk):
+            chk.ob(rule, f"{fname}: traversal variables recognised", None if shared(pk) or pk is None else False, where, found={"last node": sorted(map(str, nkeys)), "parent": sorted(map(str, pkeys))})
+            continue
+        chk.ob(rule, f"{fname}: the last node and its parent are shared traversal state", shared(nk) and shared(pk), where, found=[nk, pk], accepted="nonlocal names / fields of one traversal object")
         # every assignment last_node = <node> (not None) is paired, in the same block, with last_ev_parent = csnode.parent
         bad, n = [], 0
-
-        def blocks(node):
-            for fld in ("body", "orelse"):
-                b = getattr(node, fld, None)
-                if isinstance(b, list) and b and isinstance(b[0], ast.stmt):
-                    yield b
-                    for s in b:
-                        yield from blocks(s)
+        cs = params[1] if len(params) > 1 else "csnode"
         for b in blocks(f):
-            ln = [s for s in b if isinstance(s, ast.Assign) and H.name_id(s.targets[0]) == "last_node" and not (isinstance(s.value, ast.Constant) and s.value.value is None)]
-            lp = [s for s in b if isinstance(s, ast.Assign) and H.name_id(s.targets[0]) == "last_ev_parent" and ast.unparse(s.value) == "csnode.parent"]
+            ln = [s for s in b if isinstance(s, ast.Assign) and key(s.targets[0]) == nk and not (isinstance(s.value, ast.Constant) and s.value.value is None)]
+            lp = [s for s in b if isinstance(s, ast.Assign) and key(s.targets[0]) == pk and ast.unparse(s.value) == f"{cs}.parent"]
             for s in ln:
                 n += 1
                 if not lp:
                     bad.append(ast.unparse(s))
-        chk.ob(rule, f"{fname}: whenever last_node moves to a node of the current event, last_ev_parent is set to that event's parent", n >= 1 and not bad, where, found={"moves": n, "unpaired": bad},
+        chk.ob(rule, f"{fname}: whenever last_node moves to a node of the current event, last_ev_parent is set to that event's parent", (n >= 1 and not bad) if n else None, where, found={"moves": n, "unpaired": bad},
                accepted="last_node = <node>; last_ev_parent = csnode.parent", why="a stale parent attributes the gap between two siblings to a descendant of the operator just left")
-        nl = [x for x in ast.walk(f) if isinstance(x, ast.Nonlocal)]
-        names = {n_ for x in nl for n_ in x.names}
-        chk.ob(rule, f"{fname}: last_node and last_ev_parent are shared traversal state (nonlocal)", {"last_node", "last_ev_parent"} <= names, where, found=sorted(names), accepted=["last_ev_parent", "last_node"])
-    kf = m.func("CPGraph._construct_graph_from_kernels")
-    calls = [c for c in walk_no_nested(kf) if isinstance(c, ast.Call) and isinstance(c.func, ast.Attribute) and c.func.attr == "_attribute_edge"]
-    chk.ob(rule, "device span and kernel-to-kernel edges are attributed with parent -1 (no nesting on a stream)", len(calls) == 2 and all(ast.unparse(c.args[1]) == "-1" for c in calls), m.loc(kf),
-           found=[ast.unparse(c) for c in calls], accepted=["self._attribute_edge(e, -1)"] * 2)
+    kf0 = m.func("CPGraph._construct_graph_from_kernels")
+    kf = H.inline_helpers(m, kf0, exclude=("_add_edge_helper", "_attribute_edge"))
+    helper = m.func("CPGraph._add_edge_helper")
+    stmts = [s for s in ast.walk(kf) if isinstance(s, ast.stmt)]
+    spans, bad = 0, []
+    for b in blocks(kf):
+        for i, s in enumerate(b):
+            c = s.value if isinstance(s, (ast.Assign, ast.Expr)) else None
+            if not (isinstance(c, ast.Call) and isinstance(c.func, ast.Attribute) and c.func.attr == "_add_edge_helper" and H.is_self_attr(c.func)):
+                continue
+            bd = H.bind_call(helper, c)
+            ty = ast.unparse(bd["type"]).split(".")[-1] if "type" in bd else "OPERATOR_KERNEL"
+            if ty not in ("OPERATOR_KERNEL", "KERNEL_KERNEL_DELAY"):
+                continue
+            spans += 1
+            en = H.name_id(s.targets[0]) if isinstance(s, ast.Assign) else None
+            att = [x.value for x in b[i + 1:] if isinstance(x, ast.Expr) and isinstance(x.value, ast.Call) and isinstance(x.value.func, ast.Attribute) and x.value.func.attr == "_attribute_edge"
+                   and len(x.value.args) == 2 and H.name_id(x.value.args[0]) == en]
+            if en is None or not att or ast.unparse(att[0].args[1]) != "-1":
+                bad.append(ast.unparse(s)[:80] + " / " + (ast.unparse(att[0]) if att else "not attributed"))
+    chk.ob(rule, "device span and kernel-to-kernel edges are attributed with parent -1 (no nesting on a stream)", (not bad) if spans >= 2 else None, m.loc(kf0),
+           found={"span/delay edges": spans, "not attributed with -1": bad}, accepted="e = self._add_edge_helper(..); self._attribute_edge(e, -1)")
 
 
 def _bound_by(db, chk, m):
